@@ -150,7 +150,10 @@ def run(tier):
     bad, tool, a = bindlib.adjudicate(records, env2, "c14")
     for i in sorted(bad):
         fam, label, dirn, w, da, db, sa, sb = meta[i - 1]
-        v.fail({"prop": PROP, "family": fam, "case": label, "tag": "not_equivalent", "direction": dirn},
+        import re
+        unparen = bool(re.search(r'\} & [^({][^;]*\|', da) or re.search(r'\} & [^({][^;]*\|', db))
+        v.fail({"prop": PROP, "family": fam, "case": label, "tag": "not_equivalent", "direction": dirn, "witness": w,
+                "unparenthesised_union_after_intersection": unparen},
                {"witness": w, "decl_a": da, "decl_b": db, "a": sa, "b": sb})
     # inline() is the body of decl_concrete()
     n_inline = 0
